@@ -124,7 +124,7 @@ def configs(rng, tier):
     for r in range(0, 4):
         for combo in itertools.product(NAMES, repeat=r):
             lists.append(list(combo))
-    nss_opts = [None, ["common"], ["common", "home"], ["common", "common"]]
+    nss_opts = [None, ["common"], ["common", "home"], ["common", "common"], ["common", "home", "common"]]
     for default in (None, "en", "fr"):
         for listed in lists + [None]:
             for nss in (nss_opts if (listed is not None and len(listed) <= 2) else nss_opts[:2]):
@@ -229,7 +229,8 @@ def run(tier, seed, replay=None):
             break
         opened = set()
         for line in p.stderr.split("\n"):
-            if d in line and "ENOENT" not in line and "O_DIRECTORY" not in line:
+            # anything under the workload root counts (a locales-dir may point outside the crate directory)
+            if os.path.dirname(d) + os.sep in line and "ENOENT" not in line and "O_DIRECTORY" not in line:
                 path = line.split('"')[1]
                 if not path.endswith("Cargo.toml"):
                     opened.add(os.path.normpath(path))
